@@ -93,7 +93,20 @@ class Fn(object):
   def e_Name(self, n):
     if n.id not in self.types:
       fail(n, 'unknown variable %s' % n.id)
-    return n.id, self.types[n.id]
+    return n.id, self.vtype(n.id)
+
+  def vtype(self, name):
+    """An empty list gets its element type from the first value appended to it."""
+    t = self.types.get(name)
+    if t == 'empty':
+      t = getattr(self, 'refined', {}).get(name, 'empty')
+    return t
+
+  def refine(self, name, elem):
+    lists = {'Z': 'ids', 'nat': 'nats', 'optval': 'optvals', 'ids': 'idss', 'val': 'vals'}
+    if self.vtype(name) == 'empty' and elem in lists:
+      self.refined = dict(getattr(self, 'refined', {}))
+      self.refined[name] = lists[elem]
 
   def e_Constant(self, n):
     if n.value is True or n.value is False:
@@ -263,6 +276,25 @@ class Fn(object):
       c, t = self.expr(g.iter)
       if t == 'nats' and c.startswith('seq 0 '):
         return 'repeat [] %s' % c[6:], 'idss'
+    # [f(i, x) for i, x in enumerate(l) if cond(i, x)]
+    it = g.iter
+    if (isinstance(it, ast.Call) and isinstance(it.func, ast.Name) and it.func.id == 'enumerate' and len(it.args) == 1
+        and isinstance(g.target, ast.Tuple) and len(g.target.elts) == 2
+        and all(isinstance(e, ast.Name) for e in g.target.elts) and len(g.ifs) <= 1):
+      c, t = self.expr(it.args[0])
+      if t in ELEM:
+        a, b = g.target.elts[0].id, g.target.elts[1].id
+        saved = dict(self.types)
+        self.types[a], self.types[b] = 'nat', ELEM[t]
+        try:
+          ec, et = self.expr(n.elt)
+          cond = self.truth(g.ifs[0]) if g.ifs else 'true'
+        finally:
+          self.types = saved
+        bind = 'let %s := fst ix_ in let %s := snd ix_ in' % (a, b)
+        if et in ('nat', 'Z'):
+          return ('map (fun ix_ => %s %s) (filter (fun ix_ => %s %s) (py_enumerate (%s)))' % (bind, ec, bind, cond, c),
+                  'nats' if et == 'nat' else 'ids')
     # [record.id for record in records]
     if isinstance(g.target, ast.Name) and not g.ifs:
       c, t = self.expr(g.iter)
@@ -513,10 +545,9 @@ def _stmts():
     return m(s, defined, k)
 
   def carried(self, stmts, defined):
-    order = ['t', 'add_record_ids', 'add_record_values', 'update_record_ids', 'update_record_values', 'result',
-             'new_record_indexes', 'records']
-    vs = sorted(assigned(stmts) & defined, key=lambda v: (order.index(v) if v in order else len(order), v))
-    return vs
+    """Loop-carried / joined variables, in an order that does not depend on their names: the table first, then by the
+    line of the last assignment at the top level of the function (else of the first assignment anywhere)."""
+    return sorted(assigned(stmts) & defined, key=lambda v: (self.order.get(v, 10 ** 9), v))
 
   def s_Assign(self, s, defined, k):
     if len(s.targets) != 1:
@@ -567,10 +598,6 @@ def _stmts():
       self.types[tg.id] = 'ret'
       return "rbind (gen_upsert oe t require col_values opts) (fun '(t, %s) =>\n%s)" % (tg.id, k(defined | {tg.id}))
     b, c, t = self.mexpr(s.value)
-    if t == 'empty':
-      t = {'add_record_ids': 'optvals', 'update_record_ids': 'ids', 'new_record_indexes': 'nats'}.get(tg.id)
-      if t is None:
-        fail(s, 'empty list of unknown element type')
     self.types[tg.id] = t
     return Fn.wrap(b, 'let %s := %s in\n%s' % (tg.id, c, k(defined | {tg.id})))
 
@@ -646,6 +673,17 @@ def _stmts():
       code = 'py_enumerate %s' % code
       bind = "fun ix_ %s => let %s := fst ix_ in let %s := snd ix_ in" % (pat(vs), a, b)
       names = {a, b}
+    elif (isinstance(it, ast.Call) and isinstance(it.func, ast.Name) and it.func.id == 'zip' and len(it.args) == 2
+          and isinstance(tg, ast.Tuple) and len(tg.elts) == 2 and all(isinstance(e, ast.Name) for e in tg.elts)):
+      c1, t1 = self.expr(it.args[0])
+      c2, t2 = self.expr(it.args[1])
+      if t1 not in ELEM or t2 not in ELEM:
+        fail(s, 'zip of a %s and a %s' % (t1, t2))
+      a, b = tg.elts[0].id, tg.elts[1].id
+      self.types[a], self.types[b] = ELEM[t1], ELEM[t2]
+      code = 'combine (%s) (%s)' % (c1, c2)
+      bind = "fun ab_ %s => let %s := fst ab_ in let %s := snd ab_ in" % (pat(vs), a, b)
+      names = {a, b}
     elif isinstance(tg, ast.Name):
       code, t = self.expr(it)
       if t not in ELEM:
@@ -686,7 +724,8 @@ def _stmts():
           and arg.func.attr == 'pop' and isinstance(arg.func.value, ast.Name) and len(arg.args) == 2
           and isinstance(arg.args[1], ast.Constant) and arg.args[1].value is None):
         d = arg.func.value.id
-        if self.types.get(recv.id) == 'optvals' and self.types.get(d) == 'cells':
+        self.refine(recv.id, 'optval')
+        if self.vtype(recv.id) == 'optvals' and self.types.get(d) == 'cells':
           return "let '(popped_, %s) := dict_pop %s %s in\nlet %s := %s ++ [popped_] in\n%s" % (
             d, d, self.const_col(arg.args[0]), recv.id, recv.id, k(defined))
       # m[key].append(v) on a dict of lists
@@ -704,9 +743,10 @@ def _stmts():
         if ELEM[fld[2]] == vt:
           return 'let %s := %s %s (%s %s ++ [%s]) in\n%s' % (r, fld[1], r, fld[0], r, v, k(defined))
       # x.append(v)
-      if isinstance(recv, ast.Name) and self.types.get(recv.id) in ELEM:
+      if isinstance(recv, ast.Name) and self.types.get(recv.id) is not None:
         v, vt = self.expr(arg)
-        if ELEM[self.types[recv.id]] == vt:
+        self.refine(recv.id, vt)
+        if ELEM.get(self.vtype(recv.id)) == vt:
           return 'let %s := %s ++ [%s] in\n%s' % (recv.id, recv.id, v, k(defined))
       fail(s, 'append')
     # d.update(d2)
@@ -747,6 +787,19 @@ Open Scope Z_scope.
 '''
 
 
+def order_keys(fn):
+  keys = {'t': 0}
+  for st in fn.body:
+    if not isinstance(st, (ast.If, ast.For, ast.While, ast.Try, ast.With, ast.FunctionDef)):
+      for v in assigned([st]):
+        keys[v] = st.lineno
+  for node in ast.walk(fn):
+    if isinstance(node, ast.stmt) and not isinstance(node, (ast.If, ast.For, ast.While, ast.Try, ast.With, ast.FunctionDef)):
+      for v in assigned([node]):
+        keys.setdefault(v, node.lineno)
+  return keys
+
+
 def find_method(path, cls, name):
   with open(path) as f:
     tree = ast.parse(f.read())
@@ -772,6 +825,7 @@ def translate_bulk(path):
   fn = find_method(path, 'UserActions', 'BulkAddOrUpdateRecord')
   check_signature(fn, ['self', 'table_id', 'require', 'col_values', 'options'])
   tr = Fn({'require': 'kv', 'col_values': 'kv'})
+  tr.order = order_keys(fn)
   def ret(node):
     c, t = tr.expr(node)
     if t != 'ret':
@@ -787,6 +841,7 @@ def translate_single(path):
   fn = find_method(path, 'UserActions', 'AddOrUpdateRecord')
   check_signature(fn, ['self', 'table_id', 'require', 'col_values', 'options'])
   tr = Fn({'require': 'cells', 'col_values': 'cells'})
+  tr.order = order_keys(fn)
   def ret(node):
     c, t = tr.expr(node)
     if t != 'sret':
